@@ -290,22 +290,30 @@ def helper_tables(ctx, rule):
                            f'match_subselectors returns {got} for sub-selector results {list(truth)}: X:is(A):not(B) must be the '
                            f'intersection of the parts')
             break
-    for ids in ((), ('x',), ('y',), ('x', 'x'), ('x', 'y')):
-        got = bool(run('css_match.CSSMatch.match_id', [Obj(_name='el'), ids], {'self.get_attribute_by_name': lambda el, n, d=None: 'x'}))
-        exp = all(i == 'x' for i in ids)
-        rule.instance({'helper': 'match_id', 'ids': list(ids), 'element_id': 'x', 'result': got}, key=f'id|{ids}', sample_cap=2)
-        if got != exp:
-            rule.violation('match_id conjunction', 'soupsieve/css_match.py (match_id)', f'match_id({list(ids)}) on id="x" gives {got}')
-            break
-    for classes in ((), ('a',), ('c',), ('a', 'b'), ('a', 'c')):
-        got = bool(run('css_match.CSSMatch.match_classes', [Obj(_name='el'), classes], {'self.get_classes': lambda el: ['a', 'b']}))
-        exp = all(c in ('a', 'b') for c in classes)
-        rule.instance({'helper': 'match_classes', 'classes': list(classes), 'element_classes': ['a', 'b'], 'result': got},
-                      key=f'cls|{classes}', sample_cap=2)
-        if got != exp:
-            rule.violation('match_classes conjunction', 'soupsieve/css_match.py (match_classes)',
-                           f'match_classes({list(classes)}) on class="a b" gives {got}')
-            break
+    done = False
+    for have in ('x', '', None, 'x y'):
+        for n_ in range(4):
+            for ids in itertools.product(('x', 'y', ''), repeat=n_):
+                got = bool(run('css_match.CSSMatch.match_id', [Obj(_name='el'), ids],
+                               {'self.get_attribute_by_name': lambda el, n, d=None, _h=have: d if _h is None else _h}))
+                exp = all(i == (have if have is not None else '') for i in ids)
+                rule.instance({'helper': 'match_id', 'ids': list(ids), 'element_id': have, 'result': got}, key=f'id|{have}|{ids}', sample_cap=2)
+                if got != exp and not done:
+                    done = True
+                    rule.violation('match_id conjunction', 'soupsieve/css_match.py (match_id)', f'match_id({list(ids)}) on id={have!r} gives {got}')
+    done = False
+    for have in ([], ['a'], ['a', 'b'], ['a', 'a'], ['b', 'a', 'c']):
+        for n_ in range(4):
+            for classes in itertools.product('abc', repeat=n_):
+                got = bool(run('css_match.CSSMatch.match_classes', [Obj(_name='el'), classes], {'self.get_classes': lambda el, _h=have: list(_h)}))
+                exp = all(c in have for c in classes)
+                rule.instance({'helper': 'match_classes', 'classes': list(classes), 'element_classes': have, 'result': got},
+                              key=f'cls|{have}|{classes}', sample_cap=2)
+                if got != exp and not done:
+                    done = True
+                    rule.violation('match_classes conjunction', 'soupsieve/css_match.py (match_classes)',
+                                   f'match_classes({list(classes)}) on class="{" ".join(have)}" gives {got}: a compound requires each '
+                                   f'class it names (however often it names it) and nothing else of the class list')
     for ns, tn in itertools.product((True, False), repeat=2):
         got = bool(run('css_match.CSSMatch.match_tag', [Obj(_name='el'), Obj(_name='tag')],
                        {'self.match_namespace': lambda e, t, _v=ns: _v, 'self.match_tagname': lambda e, t, _v=tn: _v}))
